@@ -2,7 +2,7 @@
    Models: Lex/Scan.v (lex.Tables.Scan with the end-of-input loop, the automaton encoded by the tables, the
    checkpoint validator), Lex/Deriv.v (derivative-based specification used as the oracle). *)
 From Coq Require Import List ZArith Bool Lia.
-From TM Require Import Lex.Tables Lex.Scan Lex.Scan_proofs Lex.Charset Lex.Deriv.
+From TM Require Import Lex.Tables Lex.Scan Lex.Scan_proofs Lex.Charset Lex.RegexParse Lex.Deriv Lex.DerivSem Lex.Deriv_proofs Lex.Deriv_scan_proofs Lex.Bisim Lex.Bisim_proofs.
 Import ListNotations.
 Local Open Scope Z_scope.
 
@@ -25,10 +25,88 @@ Theorem C09_validated_cells : forall t, check_tables t = true ->
   (forall r, 0 <= lookup_sym (symbol_map t) r < num_symbols t).
 Proof. exact chk_parts. Qed.
 
-(* NOT proved: spec_scan_correct (Deriv.spec_scan = the declarative statement over an inductive `matches`), and the
-   Tier-2 bisimulation validator between tables and rule derivatives.  spec_scan is the independent oracle of the
-   correspondence: real lex.Compile + Tables.Scan are compared with it on every sampled (rule set, text).
-   The empty text is compared on every run but excluded from the theorem (a checkpoint taken at offset 0 on an
+(* ---- the specification matcher (the ORACLE of the correspondence) is correct ----
+   `matches r w` (DerivSem.v) is the declarative semantics of a symbol-level expression over words of input symbols
+   (code points or bytes; {eoi} is the symbol -1): literals and classes match one symbol of the set, Cat splits the word,
+   Alt chooses, Rep{mn,mx} is a concatenation of k copies with mn <= k and (mx < 0 or k <= mx) (for the ill-formed
+   bounds 0 <= mx < mn: exactly mx copies, which is what the matcher does).  `lang` is the same as a recursive function. *)
+Theorem C09_matches_is_lang : forall r w, matches r w <-> lang r w.
+Proof. exact matches_iff_lang. Qed.
+
+Theorem C09_nullable_correct : forall r, nullable r = true <-> matches r [].
+Proof. exact nullable_correct. Qed.
+
+Theorem C09_deriv_correct : forall r c w, matches (deriv c r) w <-> matches r (c :: w).
+Proof. exact deriv_correct. Qed.
+
+Theorem C09_nonvoid_correct : forall r, nonvoid r = true <-> exists w, matches r w.
+Proof. exact nonvoid_correct. Qed.
+
+(* the matcher as a whole: a word is matched iff the iterated derivative is nullable *)
+Theorem C09_derivs_nullable : forall r w, nullable (derivs w r) = true <-> matches r w.
+Proof. exact derivs_nullable. Qed.
+
+(* the translation rx_of of the parsed AST (RegexParse.re, as dumped from the implementation's own parser) denotes the
+   language of the AST: a literal is its code point (or byte) sequence, a class one member, RCat/RAlt/RRep as above,
+   {eoi} the end marker, any other unresolved reference nothing *)
+Theorem C09_rx_of_correct : forall r w, matches (rx_of r) w <-> re_lang r w.
+Proof. exact rx_of_matches. Qed.
+
+(* spec_scan_correct.  Let l = symbols bytes text be the (symbol, width) sequence the text decodes into, word l i k the
+   first i symbols followed by k end markers, a CANDIDATE any (i, k) with i <= |l|, k <= 4 and k = 0 unless i = |l|
+   (the end marker is offered only at the end of the text, at most four times), offs i l the byte offset after i symbols.
+   For EVERY rule set (expression, action, precedence) and text, the oracle's answer is
+   either (offs i l, a) where (i, k) is the LONGEST candidate matched by some rule and a is the action of the rule with
+     the highest precedence among the rules matching that candidate (the earliest such rule among equals),
+   or, when no candidate is matched by any rule, (offs m l, 0) where m is the largest number of symbols such that m = 0 or
+     some rule matches an extension of the first m symbols (the invalid token spans the longest viable prefix). *)
+Theorem C09_spec_scan_correct : forall bytes rules text,
+  scan_spec 4 rules (symbols bytes text) 0 None (spec_scan bytes rules text).
+Proof. exact spec_scan_correct. Qed.
+
+(* the same, read from the side of a given longest matched candidate / of no matched candidate *)
+Theorem C09_spec_scan_longest : forall bytes rules text i k, let l := symbols bytes text in
+  cand 4 l i k -> rule_matches rules (word l i k) ->
+  (forall i' k', cand 4 l i' k' -> rule_matches rules (word l i' k') -> (i' + k' <= i + k)%nat) ->
+  fst (spec_scan bytes rules text) = offs i l /\ winner rules (word l i k) (snd (spec_scan bytes rules text)).
+Proof. exact spec_scan_longest. Qed.
+
+Theorem C09_spec_scan_invalid : forall bytes rules text m, let l := symbols bytes text in
+  (forall i k, cand 4 l i k -> ~ rule_matches rules (word l i k)) ->
+  (m <= length l)%nat -> (m = 0%nat \/ extendable rules (word l m 0)) ->
+  (forall m', (m' <= length l)%nat -> extendable rules (word l m' 0) -> (m' <= m)%nat) ->
+  spec_scan bytes rules text = (offs m l, 0).
+Proof. exact spec_scan_invalid. Qed.
+
+(* the offsets are byte offsets of the text: the widths of all symbols add up to its length *)
+Theorem C09_symbols_total : forall bytes text,
+  offs (length (symbols bytes text)) (symbols bytes text) = Z.of_nat (length text).
+Proof. exact symbols_total. Qed.
+
+(* check_bisim (Tier 2).  Bisim.check_bisim explores the pairs (DFA state, normalised derivative vector of the active
+   rules) reachable from the start state over one representative per interval of the symbol map and then runs the
+   certificate checker closed_check on the set found: equal accepting label / winning action at every pair, every
+   interval of the symbol map (clipped to the symbols a text can contain) uniform for every class of the vector, a move in
+   the tables iff the derivative vector stays viable, the successor pair in the set, and the joint end-of-input run ends
+   within min(4, #states) markers.  For EVERY table set, rule set and start condition: if the check answers 0, the
+   reference run of the automaton of the tables equals the specification on EVERY text of bytes — and, with the
+   checkpoint validator, so does Scan itself.  The check is evaluated on the real tables of every sampled rule set
+   (case kind c09.bisim); it may also answer "unknown" (exploration cap, {eoi} chains longer than the depth). *)
+Theorem C09_check_bisim_sound : forall cap t rules sc, check_bisim cap t rules sc = 0 ->
+  forall text, bytes_ok text -> longest_accept t sc text = spec_scan (scan_bytes t) rules text.
+Proof. exact check_bisim_sound. Qed.
+
+Theorem C09_check_bisim_scan : forall cap t rules sc, check_tables t = true -> In (nthZ (state_map t) sc) (state_map t) ->
+  check_bisim cap t rules sc = 0 ->
+  forall text, text <> [] -> bytes_ok text -> scanF t sc text = spec_scan (scan_bytes t) rules text.
+Proof. exact check_bisim_scan. Qed.
+
+(* the certificate form: any set of pairs accepted by closed_check and containing the start pair will do *)
+Theorem C09_bisim_cert_sound : forall t rules sc seen, bisim_cert t rules sc seen = true ->
+  forall text, bytes_ok text -> longest_accept t sc text = spec_scan (scan_bytes t) rules text.
+Proof. exact bisim_cert_sound. Qed.
+
+(* The empty text is compared on every run but excluded from C09_scan_is_longest (a checkpoint taken at offset 0 on an
    end-of-input move would be ignored by Scan's `size > 0` test). *)
 
 (* tables of /a{eoi}/ => 2, of /ab*c/ => 2 + /a/ => 3 (one checkpoint), and /a/ => 2 + /a{eoi}/ => 3, as lex.Compile emits them *)
@@ -58,5 +136,37 @@ Example C09_spec_examples :
   spec_scan false [(a, 2, 0); (Cat a e, 3, 0)] [97] = (1, 3).
 Proof. vm_compute. repeat split; reflexivity. Qed.
 
+(* the check accepts the example tables against their rule sets, and rejects a wrong rule set *)
+Example C09_check_bisim_examples :
+  let a := Sym [(97, 97)] in let b := Sym [(98, 98)] in let c := Sym [(99, 99)] in let e := Sym [(-1, -1)] in
+  check_bisim 100 t_a_eoi [(Cat a e, 2, 0)] 0 = 0 /\
+  check_bisim 100 t_bt [(Cat a (Cat (Rep 0 (-1) b) c), 2, 0); (a, 3, 0)] 0 = 0 /\
+  check_bisim 100 t_a_aeoi [(a, 2, 0); (Cat a e, 3, 0)] 0 = 0 /\
+  check_bisim 100 t_bt [(Cat a (Cat (Rep 0 (-1) b) c), 2, 0)] 0 = 3 /\
+  check_bisim 100 t_a_eoi [(Cat a (Cat b e), 2, 0)] 0 = 4.
+Proof. vm_compute. repeat split; reflexivity. Qed.
+
+(* the declarative semantics is inhabited: /ab*c/ matches "abbc", /a{eoi}/ matches "a" followed by the end marker *)
+Example C09_matches_examples :
+  let a := Sym [(97, 97)] in let b := Sym [(98, 98)] in let c := Sym [(99, 99)] in let e := Sym [(-1, -1)] in
+  matches (Cat a (Cat (Rep 0 (-1) b) c)) [97; 98; 98; 99] /\ matches (Cat a e) [97; -1] /\ ~ matches (Cat a e) [97] /\
+  matches (Rep 2 3 a) [97; 97] /\ ~ matches (Rep 2 3 a) [97].
+Proof.
+  cbv zeta. repeat split; try (apply derivs_nullable; reflexivity); intros H; apply derivs_nullable in H; discriminate.
+Qed.
+
 Print Assumptions C09_scan_is_longest.
 Print Assumptions C09_validated_cells.
+Print Assumptions C09_matches_is_lang.
+Print Assumptions C09_nullable_correct.
+Print Assumptions C09_deriv_correct.
+Print Assumptions C09_nonvoid_correct.
+Print Assumptions C09_derivs_nullable.
+Print Assumptions C09_rx_of_correct.
+Print Assumptions C09_spec_scan_correct.
+Print Assumptions C09_spec_scan_longest.
+Print Assumptions C09_spec_scan_invalid.
+Print Assumptions C09_symbols_total.
+Print Assumptions C09_check_bisim_sound.
+Print Assumptions C09_check_bisim_scan.
+Print Assumptions C09_bisim_cert_sound.
